@@ -152,6 +152,43 @@ def _machinery_digest() -> str:
     return h.hexdigest()
 
 
+def _run_pool(eng, items, workers):
+    """Run the work items in a process pool started through a fork server (forking a process that already holds z3 state can
+    dead-lock); if no item completes for a long time the pool is abandoned and the remaining items are run in this process."""
+    import multiprocessing as mp
+    from concurrent.futures import ProcessPoolExecutor, wait, FIRST_COMPLETED
+    stall_s = float(os.environ.get("VERIF_STALL_S", "900"))
+    outs = [None] * len(items)
+    ctx = mp.get_context("forkserver")
+    ex = ProcessPoolExecutor(max_workers=min(workers, max(1, len(items))), mp_context=ctx, initializer=_worker_init, initargs=(eng.repo,))
+    stalled = False
+    try:
+        futs = {ex.submit(_worker_run, it): i for i, it in enumerate(items)}
+        pending = set(futs)
+        while pending:
+            done, pending = wait(pending, timeout=stall_s, return_when=FIRST_COMPLETED)
+            if not done:
+                stalled = True
+                break
+            for f in done:
+                outs[futs[f]] = f.result()
+    finally:
+        ex.shutdown(wait=not stalled, cancel_futures=True)
+        if stalled:
+            for p_ in list(getattr(ex, "_processes", {}).values()):
+                try:
+                    p_.kill()
+                except Exception:
+                    pass
+    if stalled:
+        print(f"ENGINE-NOTE worker pool made no progress for {stall_s:.0f}s; finishing {sum(o is None for o in outs)} items in-process", flush=True)
+        _worker_init(eng.repo)
+        for i, it in enumerate(items):
+            if outs[i] is None:
+                outs[i] = _worker_run(it)
+    return outs
+
+
 def verify_parallel(eng: Engine, keys: list[str], tier: str, timeout_ms: int, workers: int = 16):
     """Verify every (function, case) in a process pool.  Results are memoised on disk under build/cache, keyed by the
     digest of the repository source, of the machinery (pyvc + contracts) and of the work item, so a changed tree or a
@@ -190,8 +227,7 @@ def verify_parallel(eng: Engine, keys: list[str], tier: str, timeout_ms: int, wo
         todo.append((it, path))
     if todo:
         # longest work first (solver drivers have many paths per case)
-        with ProcessPoolExecutor(max_workers=workers, initializer=_worker_init, initargs=(eng.repo,)) as ex:
-            outs = list(ex.map(_worker_run, [it for it, _ in todo], chunksize=1))
+        outs = _run_pool(eng, [it for it, _ in todo], workers)
         os.makedirs(cdir, exist_ok=True)
         for (it, path), out in zip(todo, outs):
             results_by_item[it] = out
